@@ -6,7 +6,7 @@ all bulk sizes agree.
 
 from .. import rig  # noqa: F401
 from .. import gen
-from ..rig import OID, World, drive, oid_s, to_tuple
+from ..rig import OID, World, drive, drive_agen, oid_s, to_tuple
 from . import walkcommon as wc
 
 PROP = "C16"
@@ -116,6 +116,20 @@ def run_one(R, level, table, entry, cells, db, variant, bulk, label, w=None):
             res = drive(w.client.table(OID(entry)))
         elif variant == "bulktable":
             res = drive(w.client.bulktable(OID(table), bulk_size=bulk))
+        elif variant.startswith("tablify-"):
+            # the documented helper used by hand: walk (or bulk-walk) the entry, then
+            # tablify() the bindings - the base given as node count, as dotted OID, or in
+            # the absolute spelling with a leading dot (accepted everywhere in the library)
+            from puresnmp.util import tablify
+
+            how = variant.split("-", 1)[1]
+            vbs = drive_agen(w.client.bulkwalk([OID(entry)], bulk_size=bulk or 3) if how.startswith("bulk") else w.client.walk(OID(entry)), limit=len(db) * 3 + 50)
+            if how.endswith("nodes"):
+                res = tablify(vbs, num_base_nodes=len(entry))
+            elif how.endswith("dotbase"):
+                res = tablify(vbs, base_oid="." + oid_s(entry))
+            else:
+                res = tablify(vbs, base_oid=oid_s(entry))
         elif variant == "pytable":
             res = drive(w.py.table(oid_s(entry)))
         elif variant == "pybulktable":
@@ -231,6 +245,10 @@ def run(R):
                 R.mon["variants_compared"] += 1
                 if got != base:
                     R.violation({"table": list(table), "db": wc.enc_db(db), "bulk": bulk, "level": level, "variant": "bulktable", "cells": [[c, list(x)] for (c, x) in sorted(cells)]}, "table() and bulktable(%d) disagree" % bulk)
+        if i % 4 == 2 or i < 8:
+            for variant in ("tablify-nodes", "tablify-base", "tablify-dotbase", "tablify-bulk-dotbase"):
+                run_one(R, level if level != "v1" or "bulk" not in variant else "v2c", table, entry, cells, db, variant, BULKS[i % 4] if "bulk" in variant else None, "gen")
+                R.mon["tables_made_by_hand_with_tablify"] += 1
         if i % 3 == 0:
             run_one(R, level, table, entry, cells, db, "pytable", None, "gen")
             run_one(R, level, table, entry, cells, db, "pybulktable", BULKS[i % 4], "gen")
